@@ -238,7 +238,7 @@ func runChild(p Property, c *Ctx, b batch, slot int, tag string, watchdog time.D
 	cmd.Stdout = ef
 	cmd.Stderr = ef
 	cmd.Env = append(os.Environ(),
-		"GORACE=halt_on_error=0 log_path="+filepath.Join(raceDir, fmt.Sprintf("%s-%d-%d", tag, b.from, b.to)),
+		"GORACE=halt_on_error=0 exitcode=0 log_path="+filepath.Join(raceDir, fmt.Sprintf("%s-%d-%d", tag, b.from, b.to)),
 		"GOTRACEBACK=all")
 	start := time.Now()
 	co := &childOut{}
@@ -331,6 +331,32 @@ var (
 	reFrame = regexp.MustCompile(`(?m)^(github\.com/buildbuildio/pebbles[^\s(]*)\(`)
 	reFile  = regexp.MustCompile(`(?m)^\s+(/repo/[^\s]+:\d+)`)
 )
+
+// CrashInHarness reports whether the panicking goroutine's innermost non-runtime frame is harness code.
+func CrashInHarness(stderr string) bool {
+	m := rePanic.FindStringIndex(stderr)
+	if m == nil {
+		return false
+	}
+	rest := stderr[m[1]:]
+	// first goroutine block after the panic line
+	if i := strings.Index(rest, "\ngoroutine "); i >= 0 {
+		rest = rest[i+1:]
+	}
+	if j := strings.Index(rest, "\n\n"); j >= 0 {
+		rest = rest[:j]
+	}
+	for _, line := range strings.Split(rest, "\n") {
+		if strings.HasPrefix(line, "\t") || strings.HasPrefix(line, "goroutine ") || line == "" {
+			continue
+		}
+		if strings.HasPrefix(line, "panic(") || strings.HasPrefix(line, "runtime.") || strings.HasPrefix(line, "runtime/") || strings.HasPrefix(line, "sync.") || strings.HasPrefix(line, "internal/") {
+			continue
+		}
+		return strings.HasPrefix(line, "verif/harness/")
+	}
+	return false
+}
 
 // CrashSymptom extracts "panic: ... @ first pebbles frame" from a goroutine dump.
 func CrashSymptom(stderr string) string {
@@ -541,6 +567,10 @@ func Check(p Property, c *Ctx) int {
 						mu.Lock()
 						inconclusiveChildren++
 						all = append(all, Result{Case: co.crashAt, Verdict: Inconclusive, Symptom: "watchdog", Message: "child exceeded watchdog; see stderr dump", Spec: co.spec})
+						mu.Unlock()
+					} else if co.crashAt >= 0 && CrashInHarness(co.stderr) {
+						mu.Lock()
+						all = append(all, Result{Case: co.crashAt, Verdict: "broken", Message: "harness panicked: " + tail(co.stderr, 3000)})
 						mu.Unlock()
 					} else if co.crashAt >= 0 {
 						sym := CrashSymptom(co.stderr)
@@ -871,7 +901,7 @@ func replayWitness(p Property, c *Ctx, f *Finding) (still bool, note string) {
 		"--witness", path, "--journal", base+".journal", "--out", base+".out")
 	ef, _ := os.Create(base + ".stderr")
 	cmd.Stdout, cmd.Stderr = ef, ef
-	cmd.Env = append(os.Environ(), "GORACE=halt_on_error=0 log_path="+base+".race", "GOTRACEBACK=all")
+	cmd.Env = append(os.Environ(), "GORACE=halt_on_error=0 exitcode=0 log_path="+base+".race", "GOTRACEBACK=all")
 	done := make(chan error, 1)
 	if err := cmd.Start(); err != nil {
 		return false, "cannot start: " + err.Error()
